@@ -1684,6 +1684,44 @@ func (fc *FC) gatedReturns(b *ssa.BasicBlock, depth int, leaf func(*ssa.Return) 
 				}
 			}
 		}
+		if len(exits) > 1 {
+			// an exit block that runs straight (no branch) into another exit target — the body of a
+			// break — joins it: the merged values there are phis like any other
+			for changed := true; changed && len(exits) > 1; {
+				changed = false
+				for idx, e := range exits {
+					t := e
+					for n := 0; n < 8 && len(t.Succs) == 1 && !outer.Body[t.Succs[0].Index]; n++ {
+						t = t.Succs[0]
+						if _, ok := exits[t.Index]; ok && t != e {
+							delete(exits, idx)
+							changed = true
+							break
+						}
+					}
+					if changed {
+						break
+					}
+				}
+			}
+			if len(exits) > 1 {
+				// all exits forwarding to one common block
+				common := map[int]*ssa.BasicBlock{}
+				for _, e := range exits {
+					t := e
+					for n := 0; n < 8 && len(t.Succs) == 1 && !outer.Body[t.Succs[0].Index] && len(t.Succs[0].Preds) == 1; n++ {
+						t = t.Succs[0]
+					}
+					if len(t.Succs) == 1 {
+						t = t.Succs[0]
+					}
+					common[t.Index] = t
+				}
+				if len(common) == 1 {
+					exits = common
+				}
+			}
+		}
 		if len(exits) != 1 {
 			return nil
 		}
@@ -1941,9 +1979,15 @@ func (x *Extractor) evalBySign(name string, d *RF, assume []Assumption) Tri {
 		if pos || neg {
 			return False
 		}
+		if g.NonNeg(d) && g.NonNeg(d.Neg()) {
+			return True
+		}
 	case "cmp!=":
 		if pos || neg {
 			return True
+		}
+		if g.NonNeg(d) && g.NonNeg(d.Neg()) {
+			return False
 		}
 	}
 	return Unknown
